@@ -79,7 +79,7 @@ Proof.
   - destruct (q_kind q) eqn:K.
     + unfold step. rewrite Hq, E, K.
       match goal with |- match ?x with _ => _ end <> None => destruct x eqn:E2 end; [discriminate|].
-      change (getq (vmark s) r = None) in E2.
+      change (getq (vmark s r) r = None) in E2.
       rewrite getq_vmark, Hq in E2. discriminate.
     + unfold step. rewrite Hq, E, K. destruct (alookup (reqs s) oldtag) eqn:E2; [|discriminate].
       apply alookup_In in E2. apply (wf_reqs s W) in E2. destruct (getq_some _ _ E2) as (qt & Hqt).
